@@ -414,6 +414,13 @@ func vfRunScenario(t *testing.T, k int, s vfScen) vfScenOut {
 			}
 		}
 	}
+	if s.Kind == "txstall" && o.Answered && o.Stopped {
+		n := len(st.srv.txTrans) // the loop has exited: nobody owns the table any more
+		o.Note += fmt.Sprintf("; tx transactions left after Stop: %d", n)
+		if n > 0 && o.Bad == "" {
+			o.Bad = fmt.Sprintf("C09:%d report request(s) still kept although every request had been answered or given up (bookkeeping not released)", n)
+		}
+	}
 	o.WallMs = int(time.Since(t0) / time.Millisecond)
 	return o
 }
@@ -512,8 +519,28 @@ func vfRetain(en *vfStressEnv, s *vfScen, o *vfScenOut) {
 		}
 		_ = c.SetReadDeadline(time.Time{})
 	}
-	o.Note = fmt.Sprintf("W=%v creates(R1)=%d creates(R2)=%d after-duplicate=%d duplicate-answered=%v %v after R2; heartbeat re-using the number of an unanswered request 1.5 W later answered=%v",
-		W, c1, c2, c3, okd, late, hbAnswered)
+	// a request of a type the UPF has no handler for (PFD Management), and half a window later a REAL request with the same
+	// sequence number from the same socket: it is either taken for a retransmission (ignored) or executed - but its own
+	// duplicate, sent while ITS window is certainly still open, must not be executed again
+	seq3 := seq + 2
+	if b, err := message.NewPFDManagementRequest(uint32(seq3)).Marshal(); err == nil {
+		_, _ = en.nw.conns["p1"].WriteToUDP(b, &net.UDPAddr{IP: net.ParseIP(en.nw.upf), Port: 8805})
+	}
+	time.Sleep(W / 2)
+	tR3 := time.Now()
+	exchange(req(52, seq3))
+	c4 := vfCreates(en.st.k, &log, seid, 52)
+	if w := W*8/10 - time.Since(tR3); w > 0 {
+		time.Sleep(w) // 0.8 W after the real request = 1.3 W after the PFD request
+	}
+	exchange(req(52, seq3))
+	late3 := time.Since(tR3)
+	c5 := vfCreates(en.st.k, &log, seid, 52)
+	o.Note = fmt.Sprintf("W=%v creates(R1)=%d creates(R2)=%d after-duplicate=%d duplicate-answered=%v %v after R2; heartbeat re-using the number of an unanswered request 1.5 W later answered=%v; request after an unhandled message type with its number: creates %d, after its duplicate %v later: %d",
+		W, c1, c2, c3, okd, late, hbAnswered, c4, late3, c5)
+	if c4 == 1 && c5 > 1 && late3 < W*95/100 {
+		o.Bad = "C06:a duplicate inside the retention window was executed again after a message of an unhandled type had used the sequence number (real timers)"
+	}
 	if !hbAnswered {
 		o.Bad = "C06:bookkeeping of an unanswered request kept after its retention window: a later request with that sequence number is ignored (real timers)"
 	}
@@ -531,7 +558,7 @@ func vfRetain(en *vfStressEnv, s *vfScen, o *vfScenOut) {
 func vfTxStall(en *vfStressEnv, s *vfScen, o *vfScenOut) {
 	st := en.st
 	if _, ok := en.call("p1", vfEvent{T: "est", Node: "n1", CP: "72", Ops: []vfOp{{Op: "create", Kind: "far", ID: 1, AA: 12, Teid: 5, Gnb: 1, Meth: -1, MInfo: -1},
-		{Op: "create", Kind: "pdr", ID: 1, Far: 1, Meth: -1, MInfo: -1}}}, 10*time.Second); !ok {
+		{Op: "create", Kind: "urr", ID: 1, Meth: 2, MInfo: -1}, {Op: "create", Kind: "pdr", ID: 1, Far: 1, Meth: -1, MInfo: -1}}}, 10*time.Second); !ok {
 		o.Note = "establishment not answered"
 		return
 	}
@@ -555,6 +582,15 @@ func vfTxStall(en *vfStressEnv, s *vfScen, o *vfScenOut) {
 	}
 	time.Sleep(60 * time.Millisecond) // the n report requests are out, their timers (300 ms) running
 	en.send("p1", vfEvent{T: "mod", SEID: "1", Peer: "p1", Seq: en.nseq(), Ops: []vfOp{{Op: "update", Kind: "far", ID: 1, AA: 12, Meth: -1, MInfo: -1}}})
+	// while the loop is stalled: a notification whose Session Report Request does not fit into a datagram. When the loop comes
+	// back it finds this notification next to a full time-out queue; the send fails, the request is given up after its retries
+	// like any other and its bookkeeping released (looked at after Stop, when the loop no longer owns the table)
+	time.Sleep(100 * time.Millisecond)
+	big := report.SessReport{SEID: 1}
+	for u := 0; u < 1500; u++ {
+		big.Reports = append(big.Reports, report.USAReport{URRID: 1, StartTime: vfT0, EndTime: vfT0})
+	}
+	go st.srv.NotifySessReport(big)
 	// count the copies of every report request for 5 s (nobody answers them)
 	copies := map[int]int{}
 	c := en.nw.conns["p1"]
